@@ -466,3 +466,10 @@ Proof.
   - intros H root bh t x. unfold state_label, leaves_of, w_state1, w_state2.
     cbn [flat_map leaf_of]. now rewrite (kv_leaf_concat H _ _ _ _ w_concat).
 Qed.
+
+Lemma leaf_shape_all H e l : leaf_of H e = Some l ->
+  length l = 36%nat /\ nth 4 l 255 = kind_of e /\ kind_of e < 4.
+Proof.
+  intro E. split; [exact (leaf_length H e l E)|]. split; [exact (leaf_kind_byte H e l E)|].
+  exact (proj1 (leaf_of_shape H e l E)).
+Qed.
